@@ -36,6 +36,8 @@ pub fn corpus() -> Vec<Value> {
         json!({"type":"array","items":{"type":"object","properties":{"id":{"type":"integer","minimum":1},"tags":{"type":"array","items":{"type":"string","maxLength":3},"maxItems":2}},"required":["id"],"additionalProperties":false},"maxItems":3}),
         json!({"const":{"a":[1,2.5,"x",null,true]}}),
         json!({"type":"object","properties":{},"additionalProperties":{"type":"integer"}}),
+        json!({"type":"object","properties":{"a_rather_long_property_name_1":{"type":"integer"},"a_rather_long_property_name_2":{"type":"boolean"},"a_rather_long_property_name_":{"type":"null"}},"required":["a_rather_long_property_name_1","a_rather_long_property_name_2"],"additionalProperties":false}),
+        json!({"enum":["the quick brown fox jumps over A","the quick brown fox jumps over B",{"the quick brown fox jumps over C":1}]}),
     ]
 }
 
@@ -63,7 +65,15 @@ pub fn gen_schema(rng: &mut Rng, depth: usize, allow_ref: bool) -> Value {
             let n = rng.below(4);
             let mut props = serde_json::Map::new();
             let mut req = vec![];
-            for i in 0..n { let k = ["a", "b1", "c\"q", "dd"][i].to_string(); props.insert(k.clone(), gen_schema(rng, depth + 1, allow_ref)); if rng.chance(1, 2) { req.push(json!(k)); } }
+            // key families: short; long names that agree on their first 19+ characters; escapes and non-ASCII;
+            // names that are prefixes of each other, the empty name
+            let fam: [&str; 4] = match rng.below(5) {
+                0 | 1 => ["a", "b1", "c\"q", "dd"],
+                2 => ["shipping_address_line_one", "shipping_address_line_two", "shipping_address_line_", "shipping_address_city"],
+                3 => ["k\u{e9}y \u{43a}\u{43b}", "tab\there", "back\\slash/and\u{1}ctl", "k\u{e9}y"],
+                _ => ["ab", "abc", "", "a"],
+            };
+            for i in 0..n { let k = fam[i].to_string(); props.insert(k.clone(), gen_schema(rng, depth + 1, allow_ref)); if rng.chance(1, 2) { req.push(json!(k)); } }
             json!({"type":"object","properties":props,"required":req,"additionalProperties": match rng.below(4) { 0 => gen_schema(rng, depth + 2, false), 1 => json!(true), _ => json!(false) }})
         }
         7 => { let mut v = json!({"type":"array","items":gen_schema(rng, depth + 1, allow_ref)}); if rng.chance(1, 2) { v["minItems"] = json!(rng.below(3)); } if rng.chance(1, 2) { v["maxItems"] = json!(2 + rng.below(3)); } if rng.chance(1, 3) { v["prefixItems"] = json!([gen_schema(rng, depth + 1, false), gen_schema(rng, depth + 2, false)]); } v }
